@@ -307,9 +307,151 @@ theorem leaf_int (O : Oracles) (rootFmt : String) (b : SBase) (req ae : Bool) (b
   generalize specEnumOK b.enum (.int bits x) = a3
   cases a1 <;> cases a2 <;> cases a3 <;> rfl
 
-/-! ### the fragment: strings, booleans, signed integers with integral bounds, and arrays of these to any depth,
-    without formats (the open deviations of C13/C14/C16 all lie outside: formats, fractional bounds against integer
-    carriers, unsigned and float carriers, lossy enum conversions, equal values of different Go types) -/
+/-! ### unsigned integers (integral bounds, no multipleOf) and floats (exact oracles) -/
+
+theorem enum_uint (enum : List JVal) (bits : Nat) (x : Nat) (he : ∀ e ∈ enum, ∀ t, e ≠ .str t) :
+    commonErr enum (.uint bits x) = !specEnumOK enum (.uint bits x) := by
+  unfold commonErr specEnumOK
+  cases h : enum.isEmpty
+  · simp only [Bool.false_eq_true, ↓reduceIte, Bool.false_or]
+    congr 1
+    apply any_congr_mem
+    intro e hm
+    cases e with
+    | str t => exact absurd rfl (he _ hm t)
+    | num r => simp [jvalToGo, convertTo, deepEq, valEq, numVal]
+    | _ => simp [jvalToGo, convertTo, deepEq, valEq, numVal]
+  · simp
+
+theorem enum_float (enum : List JVal) (bits : Nat) (x : Rat) :
+    commonErr enum (.float bits x) = !specEnumOK enum (.float bits x) := by
+  unfold commonErr specEnumOK
+  cases h : enum.isEmpty
+  · simp only [Bool.false_eq_true, ↓reduceIte, Bool.false_or]
+    congr 1
+    apply List.any_congr rfl
+    intro e
+    cases e <;> simp [jvalToGo, convertTo, deepEq, valEq, numVal]
+  · simp
+
+theorem optErr_none (typ fmt : String) (f : Rat → Bool) : optErr typ fmt f none = false := rfl
+theorem optOK_none (f : Rat → Bool) : optOK f none = true := rfl
+
+theorem leaf_uint (O : Oracles) (rootFmt : String) (b : SBase) (req ae : Bool) (bits : Nat) (x : Nat)
+    (hf : b.format = "") (hx : ((x : Int)) < pow2 63)
+    (hmax : IntBound b.maximum) (hmin : IntBound b.minimum) (hmul : b.multipleOf = none)
+    (he : ∀ e ∈ b.enum, ∀ t, e ≠ .str t) :
+    leafImpl O rootFmt b req ae (.uint bits x) = leafSpec O b req ae (.uint bits x) := by
+  have hx' : -(pow2 63) ≤ (x : Int) ∧ (x : Int) < pow2 63 := ⟨by unfold pow2; omega, hx⟩
+  have htype : typeBad O b (.uint bits x) = !specType (typOf b) (.uint bits x) := by
+    simp only [typeBad, numKindOf, specType, numVal, typeErrTyped, goTypeInfo, hf, isInt_intCast]
+    have c1 : ("integer" = typOf b) = (typOf b = "integer") := propext eq_comm
+    have c2 : ("number" = typOf b) = (typOf b = "number") := propext eq_comm
+    by_cases h1 : typOf b = "" <;> by_cases h2 : typOf b = "integer" <;> by_cases h3 : typOf b = "number" <;>
+      simp_all [List.contains_cons, bne]
+  have hopt : ∀ (f g : Rat → Bool) (o : Option Rat), IntBound o → (∀ mi : Int, f (mi : Rat) = !g (mi : Rat)) →
+      optErr (typOf b) "" f o = !optOK g o := by
+    intro f g o ho hfg
+    cases o with
+    | none => rfl
+    | some m =>
+      obtain ⟨mi, rfl, hr⟩ := ho
+      simp only [optErr, optOK, inRange_intCast _ mi hr, ↓reduceIte, hfg]
+  have hnum : numBad O b (.uint bits x) = !specTypedValid [] b ((x : Int) : Rat) := by
+    simp only [numBad, numKindOf, numberErrTyped, specTypedValid, hf, inRange_intCast _ (x : Int) hx', List.isEmpty_nil,
+      Bool.true_or, Bool.true_and, Bool.not_true, Bool.false_or, hmul, optErr_none, optOK_none, Bool.and_true]
+    rw [hopt _ (fun m => !specMax ((x : Int) : Rat) m b.exclMax) _ hmax (fun mi => by simp only [native_uint_max_exact, Bool.not_not]),
+        hopt _ (fun m => !specMin ((x : Int) : Rat) m b.exclMin) _ hmin (fun mi => by simp only [native_uint_min_exact, Bool.not_not])]
+    generalize optOK (fun m => !specMax ((x : Int) : Rat) m b.exclMax) b.maximum = a1
+    generalize optOK (fun m => !specMin ((x : Int) : Rat) m b.exclMin) b.minimum = a2
+    cases a1 <;> cases a2 <;> rfl
+  simp only [leafImpl, leafSpec, htype, hnum, strBad, fmtBad, sliceLocalBad, numVal, enum_uint _ _ _ he]
+  generalize specType (typOf b) (.uint bits x) = a1
+  generalize specTypedValid [] b ((x : Int) : Rat) = a2
+  generalize specEnumOK b.enum (.uint bits x) = a3
+  cases a1 <;> cases a2 <;> cases a3 <;> rfl
+
+/-- a float64/float32 value (what JSON numbers decode to): exact under exact float oracles; when the declared type is
+    `integer`, an integral value must fit int64 and the bounds must be integers that fit (the range gate of the code) -/
+theorem leaf_float (O : Oracles) (rootFmt : String) (b : SBase) (req ae : Bool) (bits : Nat) (x : Rat)
+    (hf : b.format = "") (hO : (∀ n, O.isIntTol n = n.isInt) ∧ (∀ n m, O.mulOfTol n m = (n / m).isInt))
+    (hint : typOf b = "integer" →
+      (x.isInt = true → -(pow2 63) ≤ x.num ∧ x.num < pow2 63) ∧ IntBound b.maximum ∧ IntBound b.minimum ∧ IntBound b.multipleOf) :
+    leafImpl O rootFmt b req ae (.float bits x) = leafSpec O b req ae (.float bits x) := by
+  have hmul : ∀ m, mulErr O (.float bits) x m = !(specMul x m == MulRes.ok) := by
+    intro m
+    simp only [mulErr, nativeMulInt, specMul, hO.2]
+    by_cases hm : m ≤ 0
+    · simp [hm]
+    · simp only [hm, ↓reduceIte]
+      cases (x / m).isInt <;> rfl
+  have htype : typeBad O b (.float bits x) = !specType (typOf b) (.float bits x) := by
+    simp only [typeBad, numKindOf, specType, numVal, typeErrTyped, goTypeInfo, hf, hO.1]
+    have c1 : ("integer" = typOf b) = (typOf b = "integer") := propext eq_comm
+    have c2 : ("number" = typOf b) = (typOf b = "number") := propext eq_comm
+    by_cases h1 : typOf b = "" <;> by_cases h2 : typOf b = "integer" <;> by_cases h3 : typOf b = "number" <;>
+      cases x.isInt <;> simp_all [List.contains_cons, bne]
+  by_cases hti : typOf b = "integer"
+  · obtain ⟨hrange, hmaxB, hminB, hmulB⟩ := hint hti
+    cases hxi : x.isInt with
+    | false =>
+      -- not an integer: the type check fails on both sides
+      have hs : specType (typOf b) (.float bits x) = false := by simp [specType, numVal, hti, hxi]
+      simp only [leafImpl, leafSpec, htype, hs, Bool.not_false, Bool.not_true, Bool.false_and]
+    | true =>
+      have hx := hrange hxi
+      have hxc : x = ((x.num : Int) : Rat) := isInt_eq_intCast hxi
+      have hir : inRange (typOf b) "" x = true := by rw [hxc]; exact inRange_intCast _ _ hx
+      have hopt : ∀ (f g : Rat → Bool) (o : Option Rat), IntBound o → (∀ m, f m = !g m) →
+          optErr (typOf b) "" f o = !optOK g o := by
+        intro f g o ho hfg
+        cases o with
+        | none => rfl
+        | some m =>
+          obtain ⟨mi, rfl, hr⟩ := ho
+          simp only [optErr, optOK, inRange_intCast _ mi hr, ↓reduceIte, hfg]
+      have hnum : numBad O b (.float bits x) = !specTypedValid [] b x := by
+        simp only [numBad, numKindOf, numberErrTyped, specTypedValid, hf, hir, List.isEmpty_nil,
+          Bool.true_or, Bool.true_and, Bool.not_true, Bool.false_or]
+        rw [hopt _ (fun m => !specMax x m b.exclMax) _ hmaxB (fun m => by simp only [native_float_max_exact, Bool.not_not]),
+            hopt _ (fun m => !specMin x m b.exclMin) _ hminB (fun m => by simp only [native_float_min_exact, Bool.not_not]),
+            hopt _ (fun m => specMul x m == MulRes.ok) _ hmulB (fun m => hmul m)]
+        generalize optOK (fun m => !specMax x m b.exclMax) b.maximum = a1
+        generalize optOK (fun m => !specMin x m b.exclMin) b.minimum = a2
+        generalize optOK (fun m => specMul x m == MulRes.ok) b.multipleOf = a3
+        cases a1 <;> cases a2 <;> cases a3 <;> rfl
+      simp only [leafImpl, leafSpec, htype, hnum, strBad, fmtBad, sliceLocalBad, numVal, enum_float]
+      generalize specType (typOf b) (.float bits x) = a1
+      generalize specTypedValid [] b x = a2
+      generalize specEnumOK b.enum (.float bits x) = a3
+      cases a1 <;> cases a2 <;> cases a3 <;> rfl
+  · have hir : ∀ m, inRange (typOf b) "" m = true := by
+      intro m; unfold inRange; simp [hti]
+    have hopt : ∀ (f g : Rat → Bool) (o : Option Rat), (∀ m, f m = !g m) → optErr (typOf b) "" f o = !optOK g o := by
+      intro f g o hfg
+      cases o with
+      | none => rfl
+      | some m => simp only [optErr, optOK, hir m, ↓reduceIte, hfg]
+    have hnum : numBad O b (.float bits x) = !specTypedValid [] b x := by
+      simp only [numBad, numKindOf, numberErrTyped, specTypedValid, hf, hir x, List.isEmpty_nil,
+        Bool.true_or, Bool.true_and, Bool.not_true, Bool.false_or]
+      rw [hopt _ (fun m => !specMax x m b.exclMax) b.maximum (fun m => by simp only [native_float_max_exact, Bool.not_not]),
+          hopt _ (fun m => !specMin x m b.exclMin) b.minimum (fun m => by simp only [native_float_min_exact, Bool.not_not]),
+          hopt _ (fun m => specMul x m == MulRes.ok) b.multipleOf (fun m => hmul m)]
+      generalize optOK (fun m => !specMax x m b.exclMax) b.maximum = a1
+      generalize optOK (fun m => !specMin x m b.exclMin) b.minimum = a2
+      generalize optOK (fun m => specMul x m == MulRes.ok) b.multipleOf = a3
+      cases a1 <;> cases a2 <;> cases a3 <;> rfl
+    simp only [leafImpl, leafSpec, htype, hnum, strBad, fmtBad, sliceLocalBad, numVal, enum_float]
+    generalize specType (typOf b) (.float bits x) = a1
+    generalize specTypedValid [] b x = a2
+    generalize specEnumOK b.enum (.float bits x) = a3
+    cases a1 <;> cases a2 <;> cases a3 <;> rfl
+
+/-! ### the fragment: strings, booleans, signed and unsigned integers with integral bounds, floats (exact float oracles; with a
+    declared `integer` type the range gate of the code applies), and arrays of these to any depth, without formats (the open
+    deviations of C13/C14/C16 all lie outside: formats, fractional bounds against integer carriers, multipleOf on unsigned
+    carriers, values beyond int64, lossy enum conversions, equal values of different Go types) -/
 
 def Frag (O : Oracles) : Nat → SSchema → GoVal → Prop
   | 0, _, _ => True
@@ -320,6 +462,12 @@ def Frag (O : Oracles) : Nat → SSchema → GoVal → Prop
      | .bool _ => True
      | .int _ x => (-(pow2 63) ≤ x ∧ x < pow2 63) ∧ IntBound b.maximum ∧ IntBound b.minimum ∧ IntBound b.multipleOf
                    ∧ (∀ e ∈ b.enum, ∀ t, e ≠ .str t)
+     | .uint _ x => ((x : Int) < pow2 63) ∧ IntBound b.maximum ∧ IntBound b.minimum ∧ b.multipleOf = none
+                   ∧ (∀ e ∈ b.enum, ∀ t, e ≠ .str t)
+     | .float _ x => ((∀ n, O.isIntTol n = n.isInt) ∧ (∀ n m, O.mulOfTol n m = (n / m).isInt))
+                   ∧ (typOf b = "integer" →
+                        (x.isInt = true → -(pow2 63) ≤ x.num ∧ x.num < pow2 63) ∧ IntBound b.maximum ∧ IntBound b.minimum
+                        ∧ IntBound b.multipleOf)
      | .slice _ _ xs =>
        b.enum = [] ∧ (b.uniqueItems = true → ∀ x ∈ xs, isScalar x = true) ∧
        (match items with
@@ -340,6 +488,8 @@ theorem frag_leafAgree (O : Oracles) (rootFmt : String) (hr : O.fmtKnown rootFmt
     | str s => exact ⟨leaf_str O rootFmt b req ae s hf hr h0 hv, trivial⟩
     | bool x => exact ⟨leaf_bool O rootFmt b req ae x hf, trivial⟩
     | int bits x => exact ⟨leaf_int O rootFmt b req ae bits x hf hv.1 hv.2.1 hv.2.2.1 hv.2.2.2.1 hv.2.2.2.2, trivial⟩
+    | uint bits x => exact ⟨leaf_uint O rootFmt b req ae bits x hf hv.1 hv.2.1 hv.2.2.1 hv.2.2.2.1 hv.2.2.2.2, trivial⟩
+    | float bits x => exact ⟨leaf_float O rootFmt b req ae bits x hf hv.1 hv.2, trivial⟩
     | slice e n xs =>
       refine ⟨leaf_slice O rootFmt b req ae e n xs hf hv.1 hv.2.1, ?_⟩
       cases items with
